@@ -50,8 +50,14 @@ TRUSTED = [
 ASSUMPTIONS = [
     "C05_prune_gfp assumes every rule set of the input dictionary is non-empty; C05_quotient_nonempty proves that "
     "rules_up_to_equivalence always produces that shape (a label mapped to an empty set survives: C05_prune_refuted_on_empty_ruleset)",
-    "random finders: theorems hold for every oracle that is a possible run of random (chosen rule in the set, shuffle a "
-    "permutation, one answer per popped node); other oracles make the model return None and are excluded by hypothesis",
+    "random finders: `legit d cs [root] []` (Tree/ProgressProofs.v) defines a run of random without reference to the model "
+    "(chosen rule in the rule set of the popped label, children a permutation of it when the label is new and the rule not (), "
+    "one answer per popped node, down to the empty queue); C05_random_answers_iff_legit: the model answers exactly on those, "
+    "so the hypothesis `... = Some t` of the validity theorems means `run of random`. C05_random_finder_never_stuck and "
+    "C05_smallish_finder_total assume a closed dictionary with non-empty rule sets whose keys include the root (what prune "
+    "returns when has_specification is True); both are necessary (C05_random_stuck_if_not_closed, "
+    "C05_random_stuck_if_empty_ruleset). The source of randomness is an arbitrary list of answers: no probability, and the "
+    "time limit of smallish is 'some number >= 1 of runs'",
     "minimality of 'smallest' (C05_smallest_minimum) and the fuel theorem assume a closed dictionary (every child is a key), "
     "which prune guarantees (used in C05_smallest_minimum_ruledb) and the Python generator itself assumes",
     "section 8 (composed model): hypotheses order_In / order_len on the set-iteration order (every element, once: as C06); "
@@ -76,7 +82,19 @@ LEVEL_TEXT = (
     "size <= maximum (same order); on a closed dictionary the generator's fuel is never exhausted; on a closed dictionary, "
     "when it returns at all, _get_smallest_node returns a valid proof tree of "
     "minimum size among all valid proof trees OF THAT (quotient) DICTIONARY. proof_tree_generator_bfs is refuted "
-    "(C05_bfs_generator_refuted, open finding). "
+    "(C05_bfs_generator_refuted, open finding); what holds of every tree it yields, for every dictionary, is "
+    "C05_bfs_partial: root label, only dictionary rules, no label without a rule (conjuncts 1-2 of validity; one rule per "
+    "label is the refuted part; completeness / no duplicates are oracle-only). "
+    "PROGRESS of the random finders (Tree/ProgressProofs.v): C05_random_answers_iff_legit (random_proof_tree's model returns a "
+    "tree iff the answers are a run of random, `legit`, defined from the dictionary alone); C05_random_pops_bound (from any "
+    "loop state an answered run pops at most |queue| + sum over the labels not yet seen of their largest arity: `while queue` "
+    "terminates, pop_bound d = 1 + sum of largest arities from the start); C05_random_finder_total (closed, non-empty rule "
+    "sets, root a key, complete run of random -> a tree is returned within pop_bound pops); C05_random_finder_total_prefix "
+    "(a source of answers legitimate as far as it goes and at least pop_bound long is enough: never out of answers); "
+    "C05_random_finder_never_stuck (on such a dictionary EVERY legitimate prefix extends to a complete run which is answered: "
+    "no reachable state in which random.choice is asked to pick from a missing or empty rule set - no KeyError/IndexError - "
+    "and no infinite loop); C05_random_stuck_if_not_closed / _if_empty_ruleset (both hypotheses are necessary); "
+    "C05_smallish_finder_total; on the code path C05_finder_answers_on_runs_of_random (section 8). "
     "SECTION 8 - RuleDBBase as it composes rule keys, EquivalenceDB (C06 model) and the _pruned_dict cache "
     "(Tree/WithEquiv.v, proofs Tree/WithEquiv{Proofs,Inv,Hist,Cache}.v, Tree/Kernel.v, Equiv/Neutral.v): the representative is "
     "NOT a parameter, it is `find` of the current union-find state, and the several reads (rules_up_to_equivalence, the root "
@@ -111,9 +129,19 @@ LEVEL_NOTE = (
     "(C02), status(), rule_from_equivalence_rule*. In the composed model the binary search of _get_smallest_node reads "
     "pruned_dict / equivdb[root] once instead of once per iteration (reads are cache hits and lookups: C05_recompute_idem, "
     "C06_representative_function); `if ends == [start]: return` in add compares a tuple with a list and is dead code "
-    "(modelled as such). What is NOT proved for the composed model: that a run of random with valid choices always yields a "
-    "tree (progress of random_proof_tree on a closed dictionary; the model returns NNoRun for a non-run and the correspondence "
-    "never saw one); histories start from a fresh database (a pickled / copied RuleDB is C17); the simulation of the cache "
+    "(modelled as such). Progress of random_proof_tree is proved for the PURE finder (C05_random_finder_total, "
+    "_never_stuck: on a closed dictionary with non-empty rule sets every run of random is answered) and chained into the "
+    "composed model for recursive packs by C05_finder_answers_on_runs_of_random (after has_specification() = True, "
+    "_get_specification_node returns a tree whenever runs <> [] and every recorded run is `legit` on the cached dictionary: "
+    "NNoRun excluded). Not chained: that legit runs EXIST for the cached dictionary (needs closed / non-empty of the cached "
+    "prune result inside the composed invariant; the pure C05_random_finder_never_stuck + prune_closed give it by hand). The model of the loop has no fuel: 'out of fuel' = the list of answers ended "
+    "before the queue was empty (excluded by `legit`, resp. by length >= pop_bound in the _prefix form). The harness "
+    "re-derives `legit` and the pop bound on every recorded real run (check_run) and stops the real loop at pop_bound pops "
+    "(PopBound) so that a non-terminating finder is a reported failing input, not a timeout. "
+    "bfs generator: C05_bfs_partial has no fuel theorem for bfs_helper (fuel = labels + 2) and no completeness statement; the "
+    "oracle decides, whenever fewer than K=300 trees come out, that the VALID yielded trees realise exactly the choice "
+    "functions of the dictionary and that no valid tree is yielded twice (several valid trees for one choice function are "
+    "legitimate: a sibling may stay a leaf); histories start from a fresh database (a pickled / copied RuleDB is C17); the simulation of the cache "
     "theorem compares node requests only up to found / not found / invalid (trees are named by representatives). "
     "In iterative mode marks of earlier queries can be stale (a label derivable GIVEN the root stays verified when its class "
     "later merges with the root's): C05_verified_marks_sound states exactly that, and the oracles reproduce it (no weakening). "
@@ -314,11 +342,43 @@ def tup(t):
     return (t[0], tuple(tup(c) for c in t[1]))
 
 
+def check_run(run, d, root, what):
+    """the recorded answers [rule, shuffled labels] of one random_proof_tree call are a COMPLETE run of random
+    (Coq: legit d run [root] []) of at most pop_bound(d) pops; None if so"""
+    bound = 1 + sum(max([len(r) for r in d[k]] or [0]) for k in d)
+    if len(run) > bound:
+        return "%s: %d nodes popped, more than 1 + sum of the largest arities = %d" % (what, len(run), bound)
+    queue, seen = [root], set()
+    for r, sh in run:
+        if not queue:
+            return "%s: random consulted after the queue was empty" % what
+        v = queue.pop(0)
+        if v not in d or tuple(r) not in d[v]:
+            return "%s: popped label %r was given the rule %r which is not in its rule set" % (what, v, r)
+        if v not in seen and r:
+            if sorted(sh) != sorted(r):
+                return "%s: children %r of %r are not a shuffle of the chosen rule %r" % (what, sh, v, r)
+            queue.extend(sh)
+        seen.add(v)
+    if queue:
+        return "%s: the finder returned with labels %r still queued" % (what, queue)
+    return None
+
+
 def is_closed(d):
     return all(x in d for k in d for r in d[k] for x in r) and all(d[k] for k in d)
 
 
 # ------------------------------------------------------------ scripted random
+class PopBound(RuntimeError):
+    """random_proof_tree popped more nodes than the proved bound allows (the queue loop would not terminate)"""
+
+
+def pop_bound(d):
+    """Tree/ProgressProofs.v pop_bound: 1 + sum over the labels of the largest arity of their rules"""
+    return 1 + sum(max([len(r) for r in d[k]] or [0]) for k in d)
+
+
 class Script:
     """replaces random.choice / random.shuffle / time in tree_searcher and records the answers"""
 
@@ -328,10 +388,14 @@ class Script:
         self.runs = []       # one list of [rule, shuffled labels] per random_proof_tree call
         self.sizes = []
         self.clock = 0
+        self.max_pops = 500  # stop for runaway loops (the dictionaries of this harness have pop_bound <= 50); callers that know the dictionary set pop_bound(d), the proved bound
 
     def choice(self, seq):
         if not seq:
             raise IndexError("Cannot choose from an empty sequence")
+        if self.max_pops is not None and len(self.runs[-1]) >= self.max_pops:
+            # C05_random_pops_bound: an answered run pops at most 1 + sum of the largest arities nodes
+            raise PopBound("more than %d nodes popped" % self.max_pops)
         r = seq[self.rng.randrange(len(seq))]
         self.runs[-1].append([list(r), []])
         return r
@@ -737,15 +801,19 @@ def _run_real(case):
         return {"out": [1, canon_dict(nd)], "input_mutated": canon_dict(d) != before}
     if m in ("random", "smallish"):
         d = build(case["d"], default=True)
+        before = canon_dict(d)
         with Script(case["seed"], case.get("iters", 0)) as sc:
+            # on a pruned dictionary the proved bound; otherwise (correspondence only) just a stop for runaway loops
+            sc.max_pops = pop_bound(d) if is_closed(d) else 500
             try:
                 if m == "random":
                     t = ts.random_proof_tree(d, case["root"])
                 else:
                     t = ts.smallish_random_proof_tree(d, case["root"], 1.0)
-            except (KeyError, IndexError) as ex:
-                return {"out": [0], "runs": sc.runs, "raised": type(ex).__name__}
-        return {"out": [1, tree_sx(t)], "runs": sc.runs, "sizes": sc.sizes, "rk": check_rule_keys(t, d, m)}
+            except (KeyError, IndexError, PopBound) as ex:
+                return {"out": [0], "runs": sc.runs, "raised": "%s (%s)" % (type(ex).__name__, ex)}
+        return {"out": [1, tree_sx(t)], "runs": sc.runs, "sizes": sc.sizes, "rk": check_rule_keys(t, d, m),
+                "input_mutated": canon_dict(d) != before, "pop_bound": pop_bound(d)}
     if m == "dfs":
         d = build(case["d"])
         try:
@@ -895,6 +963,15 @@ def oracle(case, res):
         why = check_tree(out[1], d, case["root"], what=m) or res.get("rk")
         if why:
             return why
+        if res.get("input_mutated"):
+            return "%s mutated the rule dictionary (a label was looked up that is not a key)" % m
+        # PROGRESS as proved (C05_random_finder_total / C05_random_pops_bound): every recorded run is a run of
+        # random in the sense of `legit` (re-derived here from the dictionary, not from the model) and stays
+        # within pop_bound
+        for run in res.get("runs", []):
+            why = check_run(run, d, case["root"], m)
+            if why:
+                return why
         if m == "smallish":
             sizes = res["sizes"]
             if len(sizes) != case["iters"] + 1:
@@ -945,6 +1022,15 @@ def oracle(case, res):
             if got != exp:
                 other = ["bfsgen: the valid trees yielded do not realise exactly the choice functions of the dictionary: "
                          "missing %r, extra %r" % (sorted(map(sorted, exp - got))[:2], sorted(map(sorted, got - exp))[:2])]
+            else:
+                # NOTHING VALID TWICE: no valid tree is yielded twice.  (Not demanded: one valid tree per choice
+                # function - false on the unchanged code and not part of the property: d={1:{(2,2)},2:{(),(1,)}},
+                # root 1 yields (1(2)(2(1))) and (1(2(1))(2)), two valid trees of the choice 2 -> (1,), because a
+                # sibling may be left a leaf by choosing () while the other expands.)
+                vt = [tup(t) for t in valid]
+                if len(set(vt)) != len(vt):
+                    dup = sorted(x for x in set(vt) if vt.count(x) > 1)[0]
+                    other = ["bfsgen: the same valid tree is yielded twice: %r" % (dup,)]
         return (other or probs or [None])[0]
     if m == "ifinder":
         v = ref_lfp(d, [case["root"]])
@@ -1329,4 +1415,13 @@ LEVEL_NOTE += (
 # strengthening of the oracles (CLAUSES.md G.1 item 10)
 RULE += (
     ' bfsgen: besides validity of every tree, the VALID trees must realise exactly the choice functions of the dictionary (as rule sets restricted to the labels reachable from the root) - completeness, decided whenever fewer than K trees came out; composed histories contain cache-drop operations (CDrop: _pruned_dict = None without an add, 8% of the queries).'
+)
+
+# progress of the random finder / duplicates of the bfs generator (CLAUSES.md C05 (c) items 1 and 3)
+RULE += (
+    ' random / smallish on pruned dictionaries: every recorded run of the real finder must be a complete run of random in the '
+    'sense of the Coq predicate `legit` (re-derived by check_run from the dictionary: rule in the rule set of the popped label, '
+    'children a shuffle of it, queue empty at the end) of at most pop_bound = 1 + sum of largest arities pops; the real loop is '
+    'stopped at that many pops (a finder that would not terminate is a failing input); the dictionary must not be mutated. '
+    'bfsgen: no VALID tree may be yielded twice.'
 )
